@@ -21,6 +21,8 @@ type ZZNode struct {
 	TxContractAddr                                         []byte
 	LogIdx                                                 uint64
 	LogAddr, LogTopic0, LogData                            []byte
+	LogAddrB                                               []byte
+	TwoLogs                                                bool
 	TraceFrom, TraceTo                                     []byte
 	TraceValue                                             uint64
 }
@@ -55,7 +57,9 @@ func ZZHonest(start, limit uint64) *ZZNode {
 	zzvrf.Assume(n.TxType != 0)
 	n.TxStatus = zzvrf.U8("node.tx_status")
 	zzvrf.Assume(n.TxStatus != 0)
+	n.LogAddrB = zzNZ("node.log_addr_b", 20)
 	zzNode = n
+	zzAllowFail, zzFailures, zzBlockFetches, zzCurFilter, zzHeadHash = false, 0, 0, 2, nil
 	return n
 }
 
